@@ -18,18 +18,32 @@
         and the code's scan (the order of LAPACK's eigenvalues is an assumption of that model, checked by C01's
         correspondence, not proved).  `panner_total_layouts_partial` is the same statement for ANY root selection `sel`
         under the hypothesis `Cover.QuadAcceptsOnCone sel`.
-   Still NOT proved: totality on real (non-nominal) loudspeaker positions, that one side never gets less power than the
-   other, that layers are separated, that the composed panner is mirror-symmetric, and everything about rounding (the
-   theorems are over ℝ; Qhull's facets are extracted as a table, not re-derived).  Those are watched by the search in
-   harness/c05.py.
+   EXACTNESS AT A LOUDSPEAKER of the COMPOSED panner is proved for the ten nominal layouts (model level, over ℝ):
+   `pspHandle_exact_at_speaker_layouts` — at the table position of loudspeaker `k` the modelled `configure(layout).handle`
+   returns exactly `e_k` (0+2+0: M+030 ↦ left only, M-030 ↦ right only).  Certificate `Gen/C05_Exact.lean` (regenerated on
+   every run, harness/c05_exact.py) + `exact_tables_ok` (decide +kernel: every region before the first one containing `k`
+   rejects `k`'s position with the code's own tolerances, in exact integer arithmetic: Cramer components for triplets, sign
+   conditions on the two pan quadratics / the bilinear sign test on a root box for quads) + soundness
+   (Proofs/C05Exact*.lean: `quadRoot_mem`, `quadRoot_exact`, `regionRejects_sound`, `regionExact_sound`, `spkOk_sound`).
+   LAYER SEPARATION: `layer_separation_lower_layouts` (no hypothesis: `p.z > 3e-11` ⇒ every lower-layer loudspeaker gets
+   exactly 0), `layer_separation_upper_layouts_partial` (`p.z < −3e-11` ⇒ upper-layer loudspeakers get exactly 0, under the
+   hypothesis that the QuadRegions with an upper-layer corner reject such a direction; `layer_separation_upper_noquad`
+   without hypothesis where there is no such quad: 3+7+0).
+   Still NOT proved: totality / exactness on real (non-nominal) loudspeaker positions, that one side never gets less
+   power than the other, the QuadRegion step of the upper-layer clause, that the composed panner is mirror-symmetric, and
+   everything about rounding (the theorems are over ℝ; Qhull's facets are extracted as a table, not re-derived).  Those
+   are watched by the search in harness/c05.py.
 
    Over ℝ, `x / 0 = 0`, whereas numpy produces NaN: the theorems that need a non-zero vector say so
    (`sumsq _ ≠ 0`); for an invertible `P` and `p ≠ 0` the un-normalised gains are never the zero vector. -/
 import Earverif.Proofs.PointSourceReal
 import Earverif.Proofs.C05CoverTotal
 import Earverif.Proofs.C05CoverQuadCert
+import Earverif.Proofs.C05ExactCert
+import Earverif.Proofs.C05ExactLayer
 import Earverif.Gen.C05_Tables
 import Earverif.Gen.C05_Cover
+import Earverif.Gen.C05_Exact
 
 namespace Earverif.PointSource
 
@@ -678,6 +692,145 @@ theorem handleSel_eq_pspHandle (l : RawLayout) (p : Vec3 ℝ) :
 theorem pspHandle_total_layouts (l : RawLayout) (hl : l ∈ Earverif.Gen.C05.layouts) (p : Vec3 ℝ) (hp : p ≠ (0, 0, 0)) :
     Earverif.GainCalc.pspHandle l p ≠ none := by
   rw [← handleSel_eq_pspHandle]; exact panner_total_layouts l hl p hp
+
+/-! ### exactness of the COMPOSED panner at every loudspeaker position (proofs in Proofs/C05Exact*.lean)
+
+    `Gen/C05_Exact.lean` is regenerated on every run from the real configured panner (harness/c05_exact.py): per
+    loudspeaker the first region that has it as a channel, its slot, and root intervals for the earlier QuadRegions.  The
+    kernel re-decides, in exact integer arithmetic on the binary64 coordinates, that every earlier region rejects the
+    loudspeaker's position (with the code's own tolerances −1e-11 / ±1e-10) and that the named region answers the unit
+    vector (`Cover.spkOk`). -/
+
+open Cover in
+/-- Table obligation: the regenerated exactness certificate passes `Cover.exactLayoutOk` for each of the ten tables. -/
+theorem exact_tables_ok :
+    exactTablesOk Earverif.Gen.C05Cover.scaleExp Earverif.Gen.C05.layouts Earverif.Gen.C05Exact.certs = true := by
+  decide +kernel
+
+open Cover in
+/-- **C05 "a source exactly at a loudspeaker's position excites only that loudspeaker", composed panner, ten nominal
+    layouts (model level, over ℝ).**  For every loudspeaker `k` of the layout (`nSpeakers`: all real channels; for 0+2+0 the
+    two channels M+030, M-030 of the stereo wrapper), at its table position `v` (exact binary64 coordinates,
+    `speakerPos`), the modelled `configure(layout).handle` — every region before the first one that contains `k`
+    rejects, that region answers `e_k`, the downmix of the virtual loudspeakers and the renormalisation keep `e_k`, the
+    stereo wrapper maps M+030 ↦ left only, M-030 ↦ right only — returns exactly the unit vector of `k`
+    (`speakerOut`: `k` itself, or the left/right output index of 0+2+0). -/
+theorem panner_exact_at_speaker_layouts (l : RawLayout) (hl : l ∈ Earverif.Gen.C05.layouts) (k : Nat)
+    (hk : k < nSpeakers l) :
+    ∃ v, speakerPos l k = some v ∧
+      handleSel Earverif.GainCalc.quadRoot l (p3 v) = some (unitV (nSpeakers l) (speakerOut l k)) := by
+  obtain ⟨c, _, hc⟩ := exactTablesOk_layout _ _ _ exact_tables_ok l hl
+  have hwf : l.wellFormed = true := by
+    have := tables_wellFormed
+    rw [List.all_eq_true] at this
+    exact this l hl
+  exact exactLayoutOk_sound _ l hwf c hc k hk
+
+open Cover in
+/-- the same with the name C01/C10/C13 use for the panner -/
+theorem pspHandle_exact_at_speaker_layouts (l : RawLayout) (hl : l ∈ Earverif.Gen.C05.layouts) (k : Nat)
+    (hk : k < nSpeakers l) :
+    ∃ v, speakerPos l k = some v ∧
+      Earverif.GainCalc.pspHandle l (p3 v) = some (unitV (nSpeakers l) (speakerOut l k)) := by
+  obtain ⟨v, hv, h⟩ := panner_exact_at_speaker_layouts l hl k hk
+  exact ⟨v, hv, by rw [← handleSel_eq_pspHandle]; exact h⟩
+
+open Cover in
+/-- non-vacuity / readable instances: 0+5+0 (table `L1`), M+000 = channel 2 at `(0, 1, 0)` ↦ `e_2`; 0+2+0 (table `L0`):
+    M+030 = channel 0 ↦ left only -/
+example : ∃ v, speakerPos Earverif.Gen.C05.L1 2 = some v ∧ (p3 v : Vec3 ℝ) = (0, 1, 0) ∧
+    Earverif.GainCalc.pspHandle Earverif.Gen.C05.L1 (p3 v) = some ([0, 0, 1, 0, 0] : List ℝ) := by
+  obtain ⟨v, hv, h⟩ := pspHandle_exact_at_speaker_layouts Earverif.Gen.C05.L1 (by simp [Earverif.Gen.C05.layouts]) 2
+    (by decide)
+  refine ⟨v, hv, ?_, ?_⟩
+  · have : speakerPos Earverif.Gen.C05.L1 2 = some ((0, 0), (1, 0), (0, 0)) := by decide +kernel
+    rw [this, Option.some.injEq] at hv
+    subst hv
+    simp [p3, OfF2.ofF2, f2Rat]
+  · rw [h]; simp [unitV, nSpeakers, speakerOut, Earverif.Gen.C05.L1, List.replicate]
+
+open Cover in
+example : ∃ v, speakerPos Earverif.Gen.C05.L0 0 = some v ∧
+    Earverif.GainCalc.pspHandle Earverif.Gen.C05.L0 (p3 v) = some ([1, 0] : List ℝ) := by
+  obtain ⟨v, hv, h⟩ := pspHandle_exact_at_speaker_layouts Earverif.Gen.C05.L0 (by simp [Earverif.Gen.C05.layouts]) 0
+    (by decide)
+  exact ⟨v, hv, by rw [h]; simp [unitV, nSpeakers, speakerOut, Earverif.Gen.C05.L0, List.replicate]⟩
+
+/-! ### layer separation of the COMPOSED panner (proofs in Proofs/C05ExactLayer.lean)
+
+    Layers are read off the table: a real channel is LOWER-layer if its table position has z < 0 (B+000, B±045 of 4+5+1
+    and 9+10+3), UPPER-layer if z > 0 (U…, UH+180, T+000); mid-layer positions have z = 0 exactly (`Cover.layerRows`;
+    harness/c05.py checks that this is the split by nominal elevation < −10° / > 10°).  Slack: `layerDelta = 3e-11`, three
+    times the acceptance tolerance of `Triplet.handle` (a triplet accepts `Σ gᵢ Pᵢ` with `gᵢ ≥ −1e-11`, `|z| ≤ 1`). -/
+
+open Cover in
+/-- Table obligation: in each of the ten tables every region with a channel that feeds a lower-layer loudspeaker
+    (directly, or a virtual loudspeaker downmixed onto it) is a Triplet / VirtualNgon with independent positions all at
+    z ∈ [−1, 0]; every region feeding an upper-layer loudspeaker is such a region with z ∈ [0, 1] or a QuadRegion. -/
+theorem layer_tables_ok : layerTablesOk Earverif.Gen.C05Cover.scaleExp Earverif.Gen.C05.layouts = true := by
+  decide +kernel
+
+open Cover in
+/-- **C05 "sources above the horizontal plane never excite lower-layer loudspeakers", ten nominal layouts (model level,
+    over ℝ), no hypothesis left.**  For every direction `p` (any length) with `p.z > 3e-11` the modelled
+    `configure(layout).handle` gives every lower-layer loudspeaker the gain EXACTLY 0. -/
+theorem layer_separation_lower_layouts (l : RawLayout) (hl : l ∈ Earverif.Gen.C05.layouts) (p : Vec3 ℝ)
+    (hp : layerDelta < p.2.2) (out : List ℝ) (hout : Earverif.GainCalc.pspHandle l p = some out) (k : Nat)
+    (hk : k ∈ layerRows l false) : out.getD k 0 = 0 := by
+  have hwf : l.wellFormed = true := by
+    have := tables_wellFormed
+    rw [List.all_eq_true] at this
+    exact this l hl
+  have ht := layer_tables_ok
+  unfold layerTablesOk at ht
+  rw [List.all_eq_true] at ht
+  have hc := ht l hl
+  rw [Bool.and_eq_true] at hc
+  obtain ⟨hkr, hst⟩ := layerRows_lt l false k hk
+  obtain ⟨hQ, hq⟩ := layerOk_noquad _ l _ false hc.1
+  rw [← handleSel_eq_pspHandle] at hout
+  exact layer_separation_of_check _ l hwf hst _ false hQ hq p hp out hout k hk hkr
+
+open Cover in
+/-- **"sources below the horizontal plane never excite upper-layer loudspeakers", PARTIAL.**  Missing: `QuadsRejectFar` —
+    that every QuadRegion with an upper-layer corner (mid/upper quads of 2+5+0, 4+5+0, 4+5+1, 4+9+0, 9+10+3, 4+7+0) answers
+    `None` for `p.z < −3e-11`: a quad finds pan values for the antipodal cone as well and rejects it only by its final
+    sign test, which is a statement about the roots of its two quadratics at a general direction.  Proved: every Triplet
+    and the top VirtualNgon with an upper-layer vertex rejects such a direction, regions without a channel feeding an
+    upper-layer loudspeaker leave it at exactly 0 through scatter, downmix and renormalisation. -/
+theorem layer_separation_upper_layouts_partial (l : RawLayout) (hl : l ∈ Earverif.Gen.C05.layouts)
+    (hq : QuadsRejectFar l (layerRows l true) true) (p : Vec3 ℝ)
+    (hp : p.2.2 < -layerDelta) (out : List ℝ) (hout : Earverif.GainCalc.pspHandle l p = some out) (k : Nat)
+    (hk : k ∈ layerRows l true) : out.getD k 0 = 0 := by
+  have hwf : l.wellFormed = true := by
+    have := tables_wellFormed
+    rw [List.all_eq_true] at this
+    exact this l hl
+  have ht := layer_tables_ok
+  unfold layerTablesOk at ht
+  rw [List.all_eq_true] at ht
+  have hc := ht l hl
+  rw [Bool.and_eq_true] at hc
+  obtain ⟨hkr, hst⟩ := layerRows_lt l true k hk
+  rw [← handleSel_eq_pspHandle] at hout
+  exact layer_separation_of_check _ l hwf hst _ true hc.2 hq p hp out hout k hk hkr
+
+open Cover in
+/-- the upper clause WITHOUT hypothesis for a table no QuadRegion of which has an upper-layer corner (decidable:
+    `layerOk … true`); of the ten tables with upper-layer loudspeakers this is 3+7+0 (see the `example` below) -/
+theorem layer_separation_upper_noquad (l : RawLayout) (hl : l ∈ Earverif.Gen.C05.layouts)
+    (hnq : layerOk Earverif.Gen.C05Cover.scaleExp l (layerRows l true) true = true) (p : Vec3 ℝ)
+    (hp : p.2.2 < -layerDelta) (out : List ℝ) (hout : Earverif.GainCalc.pspHandle l p = some out) (k : Nat)
+    (hk : k ∈ layerRows l true) : out.getD k 0 = 0 :=
+  layer_separation_upper_layouts_partial l hl (layerOk_noquad _ l _ true hnq).2 p hp out hout k hk
+
+open Cover in
+/-- non-vacuity: 4+5+1 (table `L4`) has the lower-layer loudspeaker B+000 = channel 9 and four upper-layer ones;
+    3+7+0 (table `L5`) has U+045, U-045, UH+180 = channels 3, 4, 9 and satisfies `hnq` -/
+example : layerRows Earverif.Gen.C05.L4 false = [9] ∧ layerRows Earverif.Gen.C05.L4 true = [5, 6, 7, 8] ∧
+    layerRows Earverif.Gen.C05.L5 true = [3, 4, 9] ∧
+    layerOk Earverif.Gen.C05Cover.scaleExp Earverif.Gen.C05.L5 (layerRows Earverif.Gen.C05.L5 true) true = true := by
+  decide +kernel
 
 /-! ### non-vacuity -/
 
